@@ -8,7 +8,7 @@ namespace StoneVerif.C15
 open StoneVerif.DeclStub
 
 /-- every override the stub backend passes is present (computed from `Tables.stubOverrideCallbacks`) -/
-theorem overrides_all : stubOverrides = ⟨true, true, true, true, true⟩ := by decide
+theorem overrides_all : stubOverrides = ⟨true, true, true, true, true, true⟩ := by decide
 
 theorem pep484S_norm (N : Naming) (ns : String) (t : StoneTy) (h : textFree N t = true) :
     normText (pep484S (.name "Text") (fun n => fmtClass N n) fmtNamespace ns t) = pep484 N ns t := by
@@ -286,7 +286,7 @@ theorem union_resolve (N : Naming) (api : Api) (n : Nat) :
 def Avail (N : Naming) (ns : Namespace) (regs : List Reg) (x : String) : Prop :=
   x ∈ pyBuiltins ∨ Reg.typing x ∈ regs ∨ (x = "datetime" ∧ Reg.adhoc "import datetime" ∈ regs) ∨
   x ∈ ["bb", "bv", "T", "U"] ∨ (∃ t ∈ ns.types, x = fmtClass N t.name) ∨
-  (∃ i ∈ ns.imports, x = fmtNamespace i)
+  (∃ i, Reg.nsRef i ∈ regs ∧ x = fmtNamespace i)
 
 theorem Avail.mono {N : Naming} {ns : Namespace} {regs regs' : List Reg} {x : String}
     (h : ∀ r ∈ regs, r ∈ regs') (a : Avail N ns regs x) : Avail N ns regs' x := by
@@ -296,23 +296,20 @@ theorem Avail.mono {N : Naming} {ns : Namespace} {regs regs' : List Reg} {x : St
   · exact Or.inr (Or.inr (Or.inl ⟨a, h _ b⟩))
   · exact Or.inr (Or.inr (Or.inr (Or.inl a)))
   · exact Or.inr (Or.inr (Or.inr (Or.inr (Or.inl a))))
-  · exact Or.inr (Or.inr (Or.inr (Or.inr (Or.inr a))))
+  · obtain ⟨i, hi, hx⟩ := a
+    exact Or.inr (Or.inr (Or.inr (Or.inr (Or.inr ⟨i, h _ hi, hx⟩))))
 
-/-- every user type the mapping can mention for `t` is a class of `ns` or lives in an imported namespace -/
+/-- every user type of `ns` itself that the mapping can mention for `t` is a class of `ns` (a class of another
+namespace brings its own import: `Reg.nsRef`) -/
 def RefsOK (ns : Namespace) (t : StoneTy) : Prop :=
-  ∀ k ∈ resolvedUsers t, (k.1 = ns.name → ∃ td ∈ ns.types, td.name = k.2) ∧ (k.1 ≠ ns.name → k.1 ∈ ns.imports)
+  ∀ k ∈ resolvedUsers t, k.1 = ns.name → ∃ td ∈ ns.types, td.name = k.2
 
-theorem refsOK_of_covered (api : Api) (ns : Namespace) (h : refsCovered api ns = true) :
+theorem refsOK_of_covered (api : Api) (ns : Namespace) (h : ownRefsDefined api ns = true) :
     ∀ t ∈ annotatedTypes api ns, RefsOK ns t := by
-  intro t ht k hk
+  intro t ht k hk e
   have h1 := (List.all_eq_true.mp h) t ht
   have h2 := (List.all_eq_true.mp h1) k hk
-  by_cases e : k.1 = ns.name
-  · simp only [e, beq_self_eq_true, if_true, List.any_eq_true, beq_iff_eq] at h2
-    exact ⟨fun _ => h2, fun ne => absurd e ne⟩
-  · have e' : (k.1 == ns.name) = false := by simpa using e
-    simp only [e', Bool.false_eq_true, if_false, List.contains_iff_mem] at h2
-    exact ⟨fun eq => absurd eq e, fun _ => h2⟩
+  simpa [e] using h2
 
 theorem mapTy_avail (N : Naming) (ns : Namespace) (t : StoneTy) (h : RefsOK ns t) :
     ∀ x ∈ (mapStoneType N ns.name t).1.names, Avail N ns (mapStoneType N ns.name t).2 x := by
@@ -339,11 +336,11 @@ theorem mapTy_avail (N : Naming) (ns : Namespace) (t : StoneTy) (h : RefsOK ns t
     by_cases e : tns = ns.name
     · simp [mapTy, e, TExpr.names] at hx
       subst hx
-      obtain ⟨td, htd, hn⟩ := hk.1 e
+      obtain ⟨td, htd, hn⟩ := hk e
       exact Or.inr (Or.inr (Or.inr (Or.inr (Or.inl ⟨td, htd, by simp [hn]⟩))))
     · simp [mapTy, e, TExpr.names] at hx
       subst hx
-      exact Or.inr (Or.inr (Or.inr (Or.inr (Or.inr ⟨tns, hk.2 e, rfl⟩))))
+      exact Or.inr (Or.inr (Or.inr (Or.inr (Or.inr ⟨tns, by simp [mapTy, e], rfl⟩))))
   | list t ih =>
     intro x hx
     simp [mapTy, TExpr.names] at hx
@@ -579,8 +576,8 @@ theorem mem_dedup (l : List String) (x : String) : x ∈ dedup l ↔ x ∈ l := 
         · exact h'
     · simp only [List.mem_cons, ih]
 
-theorem typing_imported (regs : List Reg) (x : String) (h : Reg.typing x ∈ regs) :
-    x ∈ (placeholderImports regs).flatMap Import.binds := by
+theorem typing_imported (imps : List String) (regs : List Reg) (x : String) (h : Reg.typing x ∈ regs) :
+    x ∈ (placeholderImports imps regs).flatMap Import.binds := by
   have hx : x ∈ typingNames regs := by
     simp only [typingNames, mem_dedup, List.mem_filterMap]
     exact ⟨_, h, rfl⟩
@@ -590,10 +587,23 @@ theorem typing_imported (regs : List Reg) (x : String) (h : Reg.typing x ∈ reg
     | cons a l => rfl
   simp only [placeholderImports, hne, Bool.false_eq_true, if_false, List.flatMap_append, List.mem_append,
     List.flatMap_cons, List.flatMap_nil, List.append_nil, Import.binds]
-  exact Or.inl hx
+  exact Or.inl (Or.inl hx)
 
-theorem datetime_imported (regs : List Reg) (h : Reg.adhoc "import datetime" ∈ regs) :
-    "datetime" ∈ (placeholderImports regs).flatMap Import.binds := by
+/-- a namespace the user-defined callback met is imported: by the regular import block, or by the placeholder -/
+theorem nsRef_imported (imps : List String) (regs : List Reg) (i : String) (h : Reg.nsRef i ∈ regs) :
+    fmtNamespace i ∈ (placeholderImports imps regs ++ imps.map (fun n => Import.ns (fmtNamespace n))).flatMap Import.binds := by
+  by_cases hi : i ∈ imps
+  · simp only [List.flatMap_append, List.mem_append, List.flatMap_map, List.mem_flatMap, Import.binds, List.mem_singleton]
+    exact Or.inr ⟨i, hi, rfl⟩
+  · have hx : i ∈ extraNamespaces imps regs := by
+      simp only [extraNamespaces, mem_dedup, List.mem_filterMap]
+      exact ⟨_, h, by simp [hi]⟩
+    simp only [placeholderImports, List.flatMap_append, List.mem_append, List.flatMap_map, List.mem_flatMap, Import.binds,
+      List.mem_singleton]
+    exact Or.inl (Or.inl (Or.inr ⟨i, hx, rfl⟩))
+
+theorem datetime_imported (imps : List String) (regs : List Reg) (h : Reg.adhoc "import datetime" ∈ regs) :
+    "datetime" ∈ (placeholderImports imps regs).flatMap Import.binds := by
   have hx : "import datetime" ∈ adhocStmts regs := by
     simp only [adhocStmts, mem_dedup, List.mem_filterMap]
     exact ⟨_, h, rfl⟩
